@@ -252,7 +252,7 @@ class Run:
                 workers=1,
                 simulate=sim,
                 depth=g.get("depth") if sim else None,
-                seed=(self.seed + g.get("seed_offset", 0)) if sim else None,
+                seed=(self.seed + g.get("seed_offset", 0)) if (sim or g.get("emit") == "EmitSample") else None,
                 timeout=g.get("timeout", 900),
                 env=g.get("env"),
             )
